@@ -566,6 +566,16 @@ def bounded_blocks(run):
 
 
 def finish(run):
+    seek_fail = [x for x in run.pending_failures if '/seek_until/' in x[0]]
+    if seek_fail:
+        out = native({'kind': 'seek_search'}, timeout=900)
+        run.bounded.append({'what': 'bounded native search for seek_until (refute mode only)', 'tried': out.get('tried'), 'bound': out.get('bound'),
+                            'found': bool(out.get('found'))})
+        f = out.get('found')
+        if f:
+            for x in seek_fail:
+                run.pending_failures.remove(x)
+                run.violation(x[0], {'request': f['request'], 'native': f, 'solver_output': '%s (%s)' % (x[1], x[2])}, True, what='seek_until: ' + f.get('what', ''))
     for ob, status, detail in run.pending_failures:
         if status == 'refuted':
             run.violation(ob, {'request': None, 'solver_output': 'obligation refuted (%s)' % detail}, False, what='obligation %s no longer holds' % ob)
